@@ -148,9 +148,6 @@ func cmdCheck(args []string) int {
 	if len(bindErrs) > 0 {
 		return undecided("binding failure: " + strings.Join(bindErrs, " ; "))
 	}
-	if nContracts == 0 {
-		return undecided("no contracts for this property")
-	}
 	var engErrs []string
 	for _, u := range units {
 		func() {
@@ -169,6 +166,9 @@ func cmdCheck(args []string) int {
 	}
 	lemmaUnits := eng.lemmaUnits(id, &engErrs)
 	units = append(units, lemmaUnits...)
+	if nContracts == 0 && len(lemmaUnits) == 0 {
+		return undecided("no contracts for this property")
+	}
 	if len(engErrs) > 0 {
 		for _, e := range engErrs {
 			fmt.Fprintln(os.Stderr, "engine:", e)
